@@ -872,7 +872,7 @@ def check_fix_history(ctx, h, ans_for=None):
     return out
 
 
-VARIANT = ['unchanged']      # which FixSession.send_msg the code under test has: 'unchanged' | 'repaired' (probed each run)
+VARIANT = ['repaired']       # the model variant the code is compared with (pinned: the fix 9c458df is in /repo)
 
 
 def probe_variant(ctx):
@@ -882,11 +882,12 @@ def probe_variant(ctx):
         tags = [tag34(f) for f in out['frames']]
     except Exception as e:  # noqa
         tags = 'error ' + err_name(e)
-    VARIANT[0] = 'repaired' if tags == [5, 6] else 'unchanged'
-    ctx.notes.append(f'FIX send_msg variant tied to the model this run: {VARIANT[0]} (witness history wrote tag 34 = {tags}); '
-                     + ('theorem in force: C10_fix_kth_repaired (full statement)' if VARIANT[0] == 'repaired' else
-                        'theorem in force: C10_fix_kth_partial (hypothesis noEncodeFailure) + Witness.C10'))
-    ctx.count('fix-variant:' + VARIANT[0])
+    # The model is PINNED to the repaired send_msg (/repo 9c458df): a tree that behaves like the old code is not followed,
+    # it disagrees with the model (and the oracle reports the gap).  The probe result is only recorded.
+    VARIANT[0] = 'repaired'
+    ctx.notes.append(f'FIX send_msg model: repaired semantics (C10_fix_kth_repaired, full statement); the witness history of the '
+                     f'former defect wrote tag 34 = {tags} on this tree')
+    ctx.count('fix-witness-tags:' + str(tags))
 
 
 def witness_history():
